@@ -201,6 +201,13 @@ Section Gen.
             end
         end)))).
 
+  (* the download directories of all modules of a build with their tag files, collected before the module
+     loop (after fix: independent of the order in which the modules are visited) *)
+  Definition dldirs_all (in_order : list (module * env * option (list module))) : list (str * str) :=
+    fold_left (fun acc mm => match m_srcdir (fst (fst mm)), m_download (fst (fst mm)) with
+                             | Some srcdir, Some d => ainsert srcdir (dl_tagfile d srcdir) acc
+                             | _, _ => acc end) in_order [].
+
   (* download.rs: Download::render / patch — the statements that fetch (and patch) a module's sources *)
   Definition e_dl_unsupported := EOther (S_ "unsupported-download").
   Definition e_dl_rule := EOther (S_ "missing-download-rule").
@@ -248,7 +255,7 @@ Section Gen.
              | None => Ok [] end) (fun dl_stmts =>
       let st := fold_left (fun s e => add_entry e s) dl_stmts st in
       rbind (match m_download m with
-             | Some d => Ok (add_dldir srcdir (dl_tagfile d srcdir) st, None)
+             | Some d => Ok (st, None)
              | None => rmap (fun sx => (st, containing_path (ls_dldirs st) sx)) (expand_eval EV flat PIgnore srcdir)
              end) (fun '(st, src_tagfile) =>
       let have_global := match global_deps with [] => false | _ => true end in
@@ -405,7 +412,8 @@ Section Gen.
             rbind (rmapM (fun n => opt_unwrap 103 (find (fun mm => str_eqb n (m_name (fst (fst mm)))) mods)) order) (fun in_order =>
             rbind (fold_left (fun acc mm => rbind acc (fun st =>
                                 module_step rules merge_opts ms global_deps objdir (c_name bctx) (m_name binary) st mm))
-                             in_order (Ok {| ls_entries := []; ls_objects := []; ls_depfiles := []; ls_dldirs := [] |})) (fun st =>
+                             in_order (Ok {| ls_entries := []; ls_objects := []; ls_depfiles := [];
+                                             ls_dldirs := dldirs_all in_order |})) (fun st =>
             let gfiles := fold_left (fun acc d => match alookup (m_name d) (ls_depfiles st) with
                                                   | Some fs => iset_union acc fs | None => acc end) global_deps [] in
             let gfiles := match gfiles with [] => None | _ => Some (sort_paths gfiles) end in
